@@ -92,6 +92,9 @@ func NewComponents(spec openapi3.Components, opts SchemaOptions) (zero Component
 	pathParameters := make(openapi3.ParametersMap)
 	cookieParameters := make(openapi3.ParametersMap)
 	for k, v := range spec.Parameters {
+		if v == nil || v.Value == nil {
+			return zero, fmt.Errorf("parameter %q: is empty", k)
+		}
 		switch v.Value.In {
 		case "query":
 			queryParameters[k] = v
@@ -102,7 +105,7 @@ func NewComponents(spec openapi3.Components, opts SchemaOptions) (zero Component
 		case "cookie":
 			cookieParameters[k] = v
 		default:
-			return zero, fmt.Errorf("unexpected parameter 'in' value: %q", v.Value.In)
+			return zero, fmt.Errorf("parameter %q: unexpected 'in' value: %q", k, v.Value.In)
 		}
 	}
 
